@@ -55,8 +55,8 @@ def c05(tier, seed):
     from . import exact
     res = core.Result("C05", tier, seed)
     q = tier == "quick"
-    parts = [("C05", "ebnf", exact.cfg_job("C05", seed, 90 if q else 3000), "Trace_Cfg", 10 if q else 16),
-             ("C05p", "parametric", exact.pcfg_job("C05", seed, 40 if q else 1500), "Trace_CfgP", 6 if q else 16),
+    parts = [("C05", "ebnf", exact.cfg_job("C05", seed, 90 if q else 1600), "Trace_Cfg", 10 if q else 16),
+             ("C05p", "parametric", exact.pcfg_job("C05", seed, 40 if q else 900), "Trace_CfgP", 6 if q else 16),
              # conditional nullability: the family of guarded chains s0 -> s1 -> .. (paramgen.nullable_family), a sample at
              # the quick tier, every member (with a two-byte exhaustive walk) at the thorough tier
              ("C05n", "nullable-chains", exact.pnull_job("C05", seed, 600 if q else None, deep=not q), "Trace_CfgP", 6 if q else 16)]
